@@ -3,7 +3,46 @@ package c09
 // Declarations: compilation unit, types of every kind, members, parameters.
 
 func (g *gen) compilationUnit() {
-	switch g.pickW(40, 1, 1, 1, 1) {
+	switch g.pickW(40, 1, 1, 1, 1, 1, 1, 1, 2) {
+	case 8:
+		// one class holding nothing but the bulk members: the counts of the file are exactly the drawn ones
+		g.use("compilationUnit.bulkOnly")
+		g.use("compilationUnit.noPackage")
+		g.use("typeDeclaration.class")
+		g.use("classDeclaration")
+		g.w("class", g.tname(), "{")
+		g.bulkMembersOf(g.pickW(5, 2, 2, 2, 1))
+		g.w("}")
+		return
+	case 5:
+		// package declaration and nothing else
+		g.use("compilationUnit.packageOnly")
+		g.use("packageDeclaration")
+		g.w("package")
+		g.qualifiedName(3)
+		g.w(";")
+		return
+	case 6:
+		// imports (with or without package declaration) but no type
+		g.use("compilationUnit.importsOnly")
+		if g.chance(50) {
+			g.use("packageDeclaration")
+			g.w("package")
+			g.qualifiedName(3)
+			g.w(";")
+		}
+		for i, k := 0, 1+g.n(3); i < k; i++ {
+			g.importDeclaration()
+		}
+		return
+	case 7:
+		// only empty type declarations
+		g.use("compilationUnit.semisOnly")
+		for i, k := 0, 1+g.n(3); i < k; i++ {
+			g.use("typeDeclaration.semi")
+			g.w(";")
+		}
+		return
 	case 1:
 		g.use("compilationUnit.empty")
 		return
@@ -23,45 +62,36 @@ func (g *gen) compilationUnit() {
 		g.w(";")
 		return
 	}
-	if g.pickW(5, 1) == 0 {
+	switch g.pickW(15, 3, 1) {
+	case 0:
 		g.use("packageDeclaration")
 		g.w("package")
 		g.qualifiedName(3)
 		g.w(";")
-	} else {
+	case 1:
 		g.use("compilationUnit.noPackage")
+	case 2:
+		// the package of the two ordinary files of the 3-file project
+		g.use("packageDeclaration")
+		g.use("packageDeclaration.ofNeighbours")
+		g.w("package", "zz")
+		g.glue(".")
+		g.glue("nb")
+		g.w(";")
 	}
 	k := g.pickW(3, 3, 2, 1)
 	for i := 0; i < k; i++ {
-		g.w("import")
-		switch g.pickW(5, 2, 2, 1) {
-		case 0:
-			g.use("importDeclaration.single")
-			g.qualifiedName(3)
-			g.glue(".")
-			g.glue(g.tname())
-		case 1:
-			g.use("importDeclaration.wildcard")
-			g.qualifiedName(3)
-			g.glue(".")
-			g.glue("*")
-		case 2:
-			g.use("importDeclaration.static")
-			g.w("static")
-			g.qualifiedName(2)
-			g.glue(".")
-			g.glue(g.tname())
-			g.glue(".")
-			g.glue(g.sname())
-		case 3:
-			g.use("importDeclaration.staticWildcard")
-			g.w("static")
-			g.qualifiedName(2)
-			g.glue(".")
-			g.glue(g.tname())
-			g.glue(".")
-			g.glue("*")
-		}
+		g.importDeclaration()
+	}
+	if g.spring && g.rich() && g.chance(30) {
+		// NbService is the annotated interface of the 3-file project; classes of this unit implement it
+		g.use("importDeclaration.neighbour")
+		g.nbService = true
+		g.w("import", "zz")
+		g.glue(".")
+		g.glue("nb")
+		g.glue(".")
+		g.glue("NbService")
 		g.w(";")
 	}
 	n := 1 + g.pickW(6, 3, 2, 1)
@@ -76,6 +106,66 @@ func (g *gen) compilationUnit() {
 		}
 		g.typeDeclaration(true)
 	}
+}
+
+func (g *gen) importDeclaration() {
+	g.w("import")
+	switch g.pickW(10, 4, 4, 2, 1, 1, 1, 1) {
+	case 0:
+		g.use("importDeclaration.single")
+		g.qualifiedName(3)
+		g.glue(".")
+		g.glue(g.tname())
+	case 1:
+		g.use("importDeclaration.wildcard")
+		g.qualifiedName(3)
+		g.glue(".")
+		g.glue("*")
+	case 2:
+		g.use("importDeclaration.static")
+		g.w("static")
+		g.qualifiedName(2)
+		g.glue(".")
+		g.glue(g.tname())
+		g.glue(".")
+		g.glue(g.sname())
+	case 3:
+		g.use("importDeclaration.staticWildcard")
+		g.w("static")
+		g.qualifiedName(2)
+		g.glue(".")
+		g.glue(g.tname())
+		g.glue(".")
+		g.glue("*")
+	case 4:
+		// a type of the unnamed package: the name has a single segment
+		g.use("importDeclaration.single")
+		g.use("importDeclaration.singleSegment")
+		g.w(g.tname())
+	case 5:
+		g.use("importDeclaration.static")
+		g.use("importDeclaration.singleSegment")
+		g.w("static", g.tname())
+		g.glue(".")
+		g.glue(g.sname())
+	case 6:
+		g.use("importDeclaration.single")
+		g.use("importDeclaration.neighbour")
+		g.w("zz")
+		g.glue(".")
+		g.glue("nb")
+		g.glue(".")
+		g.glue([]string{"NbAlpha", "NbOmega", "NbService", "NbBody"}[g.n(4)])
+	case 7:
+		g.use("importDeclaration.wildcard")
+		g.use("importDeclaration.neighbour")
+		g.w("zz")
+		g.glue(".")
+		g.glue("nb")
+		g.glue(".")
+		g.glue("*")
+	}
+	g.w(";")
 }
 
 func (g *gen) moduleDeclaration() {
@@ -216,7 +306,12 @@ func (g *gen) classDeclaration() {
 		g.w("extends")
 		g.refType(true)
 	}
-	if g.pickW(3, 1) == 1 {
+	implementsNb := g.nbService && g.chance(60)
+	if implementsNb {
+		g.use("classDeclaration.implements")
+		g.use("classDeclaration.implementsNeighbour")
+		g.w("implements", "NbService")
+	} else if g.pickW(3, 1) == 1 {
 		g.use("classDeclaration.implements")
 		g.w("implements")
 		g.typeList()
@@ -225,6 +320,21 @@ func (g *gen) classDeclaration() {
 		g.use("classDeclaration.permits")
 		g.w("permits")
 		g.typeList()
+	}
+	if implementsNb {
+		// the interface's annotated method first, then an ordinary body
+		g.depth++
+		g.w("{")
+		g.memberModifiers("method")
+		g.w("String", "serve")
+		g.formalParameters(false)
+		g.block(false)
+		for i, k := 0, g.pickW(3, 3, 2, 1); i < k; i++ {
+			g.classBodyDeclaration("class")
+		}
+		g.w("}")
+		g.depth--
+		return
 	}
 	g.classBody("class")
 }
@@ -300,7 +410,9 @@ func (g *gen) classBodyDeclaration(kind string) {
 	defer func() { g.depth-- }()
 	g.fuel--
 	g.maybeComment()
-	switch g.pickW(12, 8, 4, 1, 2, 2, 3, 1, 1) {
+	switch g.pickW(12, 8, 4, 1, 2, 2, 3, 1, 1, 2) {
+	case 9:
+		g.bulkMembers()
 	case 0:
 		g.use("memberDeclaration.method")
 		g.memberModifiers("method")
@@ -531,7 +643,26 @@ func (g *gen) interfaceBodyDeclaration() {
 	defer func() { g.depth-- }()
 	g.fuel--
 	g.maybeComment()
-	switch g.pickW(10, 4, 3, 2, 2, 1, 2, 1) {
+	switch g.pickW(10, 4, 3, 2, 2, 1, 2, 1, 2) {
+	case 8:
+		// the grammar's modifier rule also offers these keywords in front of an interface member
+		g.use("interfaceBodyDeclaration.keywordModifier")
+		g.annotations(10, false)
+		if g.chance(30) {
+			g.w("public")
+		}
+		if g.pickW(2, 1) == 0 {
+			g.use("interfaceMemberDeclaration.method")
+			g.w([]string{"synchronized", "native", "strictfp synchronized"}[g.n(3)])
+			g.interfaceCommonBody(g.chance(50))
+		} else {
+			g.use("interfaceMemberDeclaration.const")
+			g.w([]string{"volatile", "transient", "static transient"}[g.n(3)])
+			g.typeType(false, true)
+			g.w(g.lname(), "=")
+			g.variableInitializer()
+			g.w(";")
+		}
 	case 0:
 		g.use("interfaceMemberDeclaration.method")
 		g.annotations(20, false)
@@ -707,6 +838,9 @@ func (g *gen) annotationTypeDeclaration() {
 			g.annotations(10, false)
 			if g.chance(20) {
 				g.w([]string{"public", "abstract", "public abstract"}[g.n(3)])
+			} else if g.chance(15) {
+				g.use("annotationTypeElementDeclaration.keywordModifier")
+				g.w([]string{"synchronized", "native", "volatile", "transient", "static final"}[g.n(5)])
 			}
 			g.typeType(false, true)
 			g.w(g.lname(), "(", ")")
@@ -750,4 +884,81 @@ func (g *gen) annotationTypeDeclaration() {
 		}
 	}
 	g.w("}")
+}
+
+// bulkMembers: members whose size reaches the thresholds of the bad-smell pass (20 methods that are not
+// getters or setters, 8 ifs / switches in a method, a method of more than 30 lines, an if whose
+// condition spans 3 lines or more), each at the threshold, one below and above. At most once per unit.
+func (g *gen) bulkMembers() { g.bulkMembersOf(g.pickW(2, 2, 2, 2, 1)) }
+
+func (g *gen) bulkMembersOf(kind int) {
+	if g.bulkDone {
+		g.use("memberDeclaration.method")
+		g.w("void", g.lname(), "(", ")", "{", "}")
+		return
+	}
+	g.bulkDone = true
+	g.use("memberDeclaration.method")
+	switch kind {
+	case 0:
+		g.use("bulk.manyMethods")
+		n := []int{20, 19, 21, 20, 26}[g.n(5)]
+		for i := 0; i < n; i++ {
+			if m := []string{"public", "private", "", "static"}[i%4]; m != "" {
+				g.w(m)
+			}
+			g.w("void", "op"+string(rune('a'+i%26))+string(rune('A'+i/26)), "(", ")", "{", "}")
+		}
+		if g.chance(25) {
+			g.w("public", "int", "getX", "(", ")", "{", "return", "0", ";", "}")
+			g.w("public", "void", "setX", "(", "int", "x", ")", "{", "}")
+		}
+	case 1:
+		g.use("bulk.manyIfs")
+		g.use("statement.if")
+		n := []int{8, 7, 9, 12}[g.n(4)]
+		g.w("void", g.lname(), "(", ")", "{")
+		for i := 0; i < n; i++ {
+			g.w("if", "(", g.sname(), ")", "{", "}")
+			if g.chance(20) {
+				g.use("statement.ifElse")
+				g.w("else", "{", "}")
+			}
+		}
+		g.w("}")
+	case 2:
+		g.use("bulk.manySwitches")
+		g.use("statement.switch")
+		n := []int{8, 7, 9}[g.n(3)]
+		g.w("int", g.lname(), "(", "int", "k", ")", "{")
+		for i := 0; i < n; i++ {
+			g.w("switch", "(", "k", ")", "{")
+			if g.chance(50) {
+				g.use("switchBlockStatementGroup")
+				g.use("switchLabel.constantExpression")
+				g.use("statement.break")
+				g.w("case", "1", ":", "break", ";")
+			}
+			g.w("}")
+		}
+		g.w("return", "k", ";", "}")
+	case 3:
+		g.use("bulk.longMethod")
+		g.use("statement.expression")
+		n := []int{31, 30, 29, 32, 45}[g.n(5)]
+		g.w("void", g.lname(), "(", ")", "{")
+		for i := 0; i < n-1; i++ {
+			g.w("k", "++", ";")
+		}
+		g.w("}")
+	case 4:
+		g.use("bulk.multiLineIfCondition")
+		g.use("statement.if")
+		n := []int{3, 2, 4, 6}[g.n(4)]
+		g.w("void", g.lname(), "(", ")", "{", "if", "(", "a")
+		for i := 0; i < n; i++ {
+			g.w("&&\n", "b")
+		}
+		g.w(")", "{", "}", "}")
+	}
 }
